@@ -1,6 +1,7 @@
 import XmlRsModel.Cli
 import XmlRsModel.Thm.C07
 import XmlRsModel.Lemmas.CliIndex
+import XmlRsModel.Thm.C04
 /-! Property C17: `xe` replaces the children of precisely the selected element / attribute /
     document nodes by the parsed replacement and leaves every other item unchanged; `xq` prints
     exactly the serializations of the selected nodes in document order, or the scalar; both end in
@@ -11,7 +12,7 @@ import XmlRsModel.Lemmas.CliIndex
     "never a crash".  The theorems are about the rewrite on the information-set tree, keyed exactly
     as the XPath evaluator keys nodes (`kidIdx` = the merged-text numbering of `buildItems`). -/
 namespace XmlRs.C17
-open XmlRs XmlRs.XPath XmlRs.Cli
+open XmlRs XmlRs.XPath XmlRs.Cli Gen.Xml
 
 /-- a selected key at or below `base` -/
 def touches (sel : List Key) (base : Key) : Prop := ∃ k ∈ sel, isPrefix base k = true
@@ -239,5 +240,25 @@ theorem xq_bad_query_fails (req negz : Bool) (text : Str) (bind : List (Option S
     (hq : XPath.query ⟨{ xd with negZeroQuirk := negz }, bind⟩ expr = .error e) :
     xq req negz text bind expr = .fail := by
   simp only [xq, hp, hb, hq]
+
+/-- whatever `xe` writes on success is the serialization of a document followed by a line feed -/
+theorem xe_output_is_a_serialization (req : Bool) (text : Str) (bind : List (Option Str × Str)) (expr value out : Str)
+    (h : xe req text bind expr value = .ok out) : ∃ d' : IDoc, out = printDoc d' ++ ['\n'] := by
+  unfold xe at h
+  repeat' split at h
+  all_goals first
+    | (cases h; done)
+    | (simp only [CliOut.ok.injEq] at h; exact ⟨_, h.symm⟩)
+    | (cases h; exact ⟨_, rfl⟩)
+
+/-- ... and that output PARSES BACK to the rewritten document whenever the rewritten document is printable (the profile and the
+    side conditions of C04 `print_parse_roundtrip`): the tool never writes, for such a document, something the parser refuses
+    or reads as another document -/
+theorem xe_output_reparses (d' : IDoc) (cd : CDoc) (out : Str) (ho : out = printDoc d' ++ ['\n'])
+    (hc : canonDoc d' = some cd) (hok : cd.ok = true) (hf : d'.kids.all faithfulTop = true)
+    (hdepth : cd.root.depth ≤ maxDepth_element) (hgroups : doctypeDepth cd.doctype ≤ maxDepth_children) (hchk : checkDoc d' = .ok ()) :
+    ∃ f0, ∀ f, f0 ≤ f → parseDocFuel env false f out = .ok (d', []) := by
+  subst ho
+  exact C04.print_newline_roundtrip d' cd hc hok hf hdepth hgroups hchk
 
 end XmlRs.C17
